@@ -321,4 +321,67 @@ def nestedCount : J σ → Nat
   | .obj _ => 1
   | _ => 0
 
+/-! ## single-level nested filters over keyword leaves (what `nested_filter_passes` evaluates)
+
+`Filter::Nested { path, filter }` iterates over the `nested_count` objects of the value — null
+elements of the array are objects without values — and evaluates the inner filter on the values
+recorded for that object index; values are recorded for *fast keyword* leaves only
+(`record_nested_strings(collect_strings(v))`).  Case folding of the comparison is not modelled. -/
+
+def strsJL : JL σ → List σ
+  | .nil => []
+  | .cons (.str s) t => s :: strsJL t
+  | .cons _ t => strsJL t
+
+/-- `collect_strings` -/
+def strsOf : J σ → List σ
+  | .str s => [s]
+  | .arr a => strsJL a
+  | _ => []
+
+/-- the strings recorded for property `x` of one object -/
+def fieldStrs [DecidableEq σ] : JO σ → σ → List σ
+  | .nil, _ => []
+  | .cons k v t, x => (if k = x then strsOf v else []) ++ fieldStrs t x
+
+inductive NF (σ : Type) where
+  | kwEq (field value : σ)
+  | not (f : NF σ)
+  | and (f g : NF σ)
+  | or (f g : NF σ)
+
+/-- is `x` a fast keyword leaf of the nested field? -/
+def NProps.fastKeyword [DecidableEq σ] (props : NProps σ) (x : σ) : Bool :=
+  match props.find x with
+  | some (.leaf l) => l.kind == .keyword && l.fast
+  | _ => false
+
+def NF.evalObj [DecidableEq σ] (props : NProps σ) (kv : JO σ) : NF σ → Bool
+  | .kwEq f v => props.fastKeyword f && (fieldStrs kv f).contains v
+  | .not f => !(f.evalObj props kv)
+  | .and f g => f.evalObj props kv && g.evalObj props kv
+  | .or f g => f.evalObj props kv || g.evalObj props kv
+
+/-- one element of the nested array: an object, or (null) an object without values -/
+def elemPasses [DecidableEq σ] (props : NProps σ) (f : NF σ) : J σ → Bool
+  | .obj kv => f.evalObj props kv
+  | _ => f.evalObj props .nil
+
+def anyJL (p : J σ → Bool) : JL σ → Bool
+  | .nil => false
+  | .cons h t => p h || anyJL p t
+
+/-- `nested_filter_passes` for a top-level nested field with value `v` -/
+def nestedPasses [DecidableEq σ] (n : Nested σ) (f : NF σ) : J σ → Bool
+  | .arr a => anyJL (elemPasses n.props f) a
+  | .obj kv => f.evalObj n.props kv
+  | _ => false
+
+/-- every element of the array is an object whose stored projection is non-empty (so
+`stored_nested_value` keeps every element in place) -/
+def keepsAll [DecidableEq σ] (props : NProps σ) : JL σ → Bool
+  | .nil => true
+  | .cons (.obj kv) t => !(storedObj props kv).isNil && keepsAll props t
+  | .cons _ _ => false
+
 end SL.Doc
